@@ -26,7 +26,7 @@ type Edge struct {
 }
 
 type Stored struct {
-	Type    int    `json:"type"` // 0..NNames-1, or -1 = unknown name
+	Type    int    `json:"type"`    // 0..NNames-1, or -1 = unknown name
 	Payload string `json:"payload"` // JSON object text (without the trail)
 }
 
@@ -306,11 +306,11 @@ func f23(v V2) V3 {
 }
 
 type TypedEvent struct {
-	Ver  int    `json:"ver"`  // 1,2,3 or 0 = unrelated type
-	A    int    `json:"a"`
-	S    string `json:"s"`
-	B    bool   `json:"b,omitempty"`
-	Bad  string `json:"bad,omitempty"` // if set, stored data is this text instead (malformed for the type)
+	Ver int    `json:"ver"` // 1,2,3 or 0 = unrelated type
+	A   int    `json:"a"`
+	S   string `json:"s"`
+	B   bool   `json:"b,omitempty"`
+	Bad string `json:"bad,omitempty"` // if set, stored data is this text instead (malformed for the type)
 }
 
 type TypedCase struct {
